@@ -267,11 +267,77 @@ def r4_order_membership(ctx):
         ctx.check(U(rets[-1].value) == want, RSYS + ":ReactionSystem." + q, "count", "%s returns %s" % (q, U(rets[-1].value)), node=fn)
 
 
+def r5_definitions(ctx):
+    """membership tests, verdict values and argument order of the structural queries"""
+    def chk(q, frag, key, msg):
+        fn = ctx.func(RSYS, q)
+        ctx.check(has(fn, frag), RSYS + ":" + q, key, msg + " (expected `%s`)" % frag, node=fn)
+
+    q = "ReactionSystem.split"
+    fn = ctx.func(RSYS, q)
+    wl = [n for n in fn.body if isinstance(n, ast.While)]
+    ok = len(wl) == 1
+    if ok:
+        prev = fn.body[fn.body.index(wl[0]) - 1]
+        ok = isinstance(prev, ast.Assign) and U(prev).replace(" ", "") == "i=0"
+    ctx.check(ok, RSYS + ":" + q, "fusion-from-group-0", "the fusion pass must start at the first group (i = 0)", node=fn)
+    chk(q, "if i >= len(groups): break", "fusion-until-last-group", "the fusion pass ends when every group has been the pivot")
+    chk(q, "self.__class__([self.rxns[ri] for ri in gr], OrderedDict([(k, v) for k, v in self.substances.items() if k in gs]), **kwargs) for gr, gs in groups", "subsystem=(own-reactions,own-substances)",
+        "each sub-system gets the reactions of its group and exactly the substances of its group, in system order")
+    q = "ReactionSystem.subset"
+    chk(q, "for k, v in self.substances.items() if any([k in r.keys() for r in coll])", "substances-of-kept-reactions", "a subset keeps exactly the substances occurring in its reactions")
+    chk(q, "self.__class__(coll, substances=new_substances(coll), checks=checks) for coll in yes_no", "both-halves-built-alike", "both halves are built from their own reactions and substances")
+    q = "ReactionSystem.concatenate"
+    pr = ctx.func(RSYS, "ReactionSystem.concatenate._pred")
+    ctx.check(has(pr, "for rr in rsys.rxns: for attr in cmp_attrs: if getattr(r, attr) != getattr(rr, attr): break else: return False return True"), RSYS + ":" + q + "._pred", "new-iff-no-identical-stoichiometry",
+              "a reaction is new (True) unless some reaction already present agrees with it in every compared attribute", node=pr)
+    chk(q, "yes, no = rs.subset(_pred) rsys += yes skipped += no", "new-added,duplicates-set-aside", "new reactions are added to the sum, duplicates to the second result")
+    chk(q, "return rsys, skipped", "returns(sum,duplicates)", "result is (sum, duplicates)")
+    d = param_default(ctx.func(RSYS, q), "cmp_attrs")
+    ctx.check(d is not None and U(d) == "'reac inact_reac prod inact_prod'.split()", RSYS + ":" + q, "identical=all-four-sides", "identical stoichiometry means equal reac, inact_reac, prod and inact_prod", node=fn)
+    q = "ReactionSystem.__eq__"
+    chk(q, "if self is other: return True", "identical->True", "a system equals itself")
+    chk(q, "return self.rxns == other.rxns and self.substances == other.substances", "equal-iff-reactions-and-substances", "systems are equal iff reactions and substances are")
+    q = "ReactionSystem.__add__"
+    chk(q, "substances = OrderedDict(chain(self.substances.items(), other.substances.items()))", "substances:self-then-other", "substances of a sum: own first, then the other's")
+    chk(q, "return self.__class__(chain(self.rxns, other_rxns), substances, checks=())", "reactions:self-then-other", "reactions of a sum: own first, then the other's")
+    chk(q, "if not all((isinstance(r, Reaction) for r in other_rxns)): raise ValueError(", "non-reactions-refused", "anything but reactions is refused")
+    q = "ReactionSystem.__iadd__"
+    chk(q, "self.rxns.extend(other.rxns)", "extend-by-system", "in-place sum appends the other system's reactions")
+    chk(q, "if not all((isinstance(r, Reaction) for r in other)): raise ValueError(", "non-reactions-refused", "anything but reactions is refused")
+    chk(q, "return self", "returns-self", "in-place sum returns the system itself")
+    q = "ReactionSystem.identify_equilibria"
+    chk(q, "all_eq = rxn1.all_reac_stoich(self.substances) == rxn2.all_prod_stoich(self.substances) and rxn1.all_prod_stoich(self.substances) == rxn2.all_reac_stoich(self.substances)", "pair=mutually-reversed",
+        "two reactions form an equilibrium iff each one's reactant side is the other's product side")
+    chk(q, "for ri2, rxn2 in enumerate(self.rxns[ri1 + 1:], ri1 + 1)", "later-partner-with-true-index", "partners are searched among the later reactions, with their real index")
+    chk(q, "if all_eq: eq.append((ri1, ri2))", "pair-recorded-lowest-first", "a pair is recorded as (earlier, later)")
+    q = "ReactionSystem.as_per_substance_array"
+    chk(q, "cont = [cont[k] for k in substance_keys]", "dict->substance-order", "a dict becomes a list in substance order")
+    chk(q, "if raise_on_unk: for k in cont: if k not in substance_keys: raise KeyError(", "unknown-key-refused-on-request", "unknown keys are refused on request")
+    chk(q, "if unit is not None: cont = to_unitless(cont, unit)", "strip-iff-unit", "values are stripped exactly when a unit is given")
+    chk(q, "return cont * (unit if unit is not None else 1)", "reattach-same-unit", "and the same unit is re-attached (1 otherwise)")
+    chk(q, "if cont.shape[-1] != self.ns: raise ValueError(", "wrong-length-refused", "a vector of the wrong length is refused")
+    chk("ReactionSystem.as_per_substance_dict", "return dict(zip(self.substances.keys(), arr))", "array->dict-in-substance-order", "array entries are keyed in substance order")
+    chk("ReactionSystem.as_substance_index", "return list(self.substances.keys()).index(substance_key)", "index-in-substance-order", "the index of a key is its position in substance order")
+    q = "ReactionSystem.per_substance_varied"
+    chk(q, "index = tuple((varied_idx if i == varied_axis else slice(None) for i in range(n_varied)))", "own-axis-indexed", "a varied level indexes its own axis, all others are full slices")
+    chk(q, "result[index + (self.as_substance_index(k),)] = val", "level-stored-in-own-column", "the level is stored in the column of its substance")
+    chk(q, "result[..., :] = self.as_per_substance_array(per_substance)", "base-values-broadcast", "non-varied values are broadcast to every combination")
+    q = "ReactionSystem.upper_conc_bounds"
+    fnu = ctx.func(RSYS, q)
+    d = param_default(fnu, "skip_keys")
+    ctx.check(d is not None and U(d) == "(0,)", RSYS + ":" + q, "only-charge-skipped", "element totals skip only key 0 (charge)", node=fnu)
+    d = param_default(fnu, "min_")
+    ctx.check(d is not None and U(d) == "min", RSYS + ":" + q, "least-of-the-ratios", "the bound is the least ratio (min)", node=fnu)
+    chk(q, "if len(choose_from) == 0: bounds.append(float('inf')) else: bounds.append(min_(choose_from))", "no-elements->unbounded", "a species without elements is unbounded")
+
+
 RULES = [
     Rule("C15-R1", r1_partition, 7, "subset partition; fusion merge-then-drop; subsystems from groups"),
     Rule("C15-R1b", r1b_split_paths, 1, "split: index placed exactly once on every path of the grouping loop body", tier="thorough"),
     Rule("C15-R2", r2_categorize, 8, "categorisation signs and arms"),
     Rule("C15-R3", r3_bounds, 8, "upper bound = min(total/coeff), totals = sum coeff*conc"),
+    Rule("C15-R5", r5_definitions, 33, "membership tests, verdicts and argument order of the structural queries"),
     Rule("C15-R4", r4_order_membership, 15, "order and membership plumbing"),
 ]
 
